@@ -7,6 +7,10 @@ import json, os, subprocess, sys, concurrent.futures
 ROOT = "/verif"
 props = [json.loads(l)["id"] for l in open(os.path.join(ROOT, "properties.jsonl"))]
 args = sys.argv[1:]
+# --own: run only the check of the property each change was written against (a quick regression pass over all
+# seeded changes); the other entries of detected_by are kept as they are
+OWN = "--own" in args
+args = [a for a in args if a != "--own"]
 jobs = 3
 if args[:1] == ["-j"]:
     jobs = int(args[1]); args = args[2:]
@@ -23,7 +27,8 @@ def one(mid):
         r = subprocess.run(["git", "-C", wt, "apply", os.path.join(d, "patch.diff")], capture_output=True, text=True)
         if r.returncode != 0:
             return mid, None, "patch does not apply: " + r.stderr[:200]
-        for p in props:
+        own_prop = json.load(open(os.path.join(d, "meta.json")))["breaks_property"]
+        for p in ([own_prop] if OWN else props):
             env = dict(os.environ, VERIF_HARNESS_LIMIT="40", VERIF_REPO=wt)
             out = subprocess.run([os.path.join(ROOT, "check.py"), p, "--tier", "quick", "--no-coq"],
                                  capture_output=True, text=True, env=env, cwd=ROOT).stdout
@@ -37,6 +42,8 @@ def one(mid):
         for dname in ("harness_alt_" + tag, "target_alt_" + tag, "target_alt_" + tag + "_f32"):
             shutil.rmtree(os.path.join(ROOT, ".cache", dname), ignore_errors=True)
     meta = json.load(open(os.path.join(d, "meta.json")))
+    if OWN:
+        det = sorted(set(x for x in meta.get("detected_by", []) if x != meta["breaks_property"]) | set(det))
     meta["detected_by"] = det
     meta["detected_by_own_property_check"] = meta["breaks_property"] in det
     json.dump(meta, open(os.path.join(d, "meta.json"), "w"), indent=1)
